@@ -24,5 +24,12 @@ class TrashDirReader:
     def list_trashinfo(self, path):
         info_dir = os.path.join(path, 'info')
         for entry in self.dir_reader.entries_if_dir_exists(info_dir):
-            if entry.endswith('.trashinfo'):
+            if is_trashinfo_name(entry):
                 yield os.path.join(info_dir, entry)
+
+
+def is_trashinfo_name(entry):
+    # '.trashinfo', '..trashinfo' and '...trashinfo' would pair with files/,
+    # files/. and files/.. (the whole trash directory): never valid entries
+    return (entry.endswith('.trashinfo') and
+            entry[:-len('.trashinfo')] not in ('', '.', '..'))
